@@ -1,8 +1,120 @@
 import Driver.Store
+import NixModel.Store.ApiW
+open Lean Nix.Store
 
+/-!
+Driver of C12: the structural model's line protocol (`Driver.Store`), with the creating calls run
+through the *writers* of `Store/ApiW.lean` — the state kept after a refused call is the graph the
+writer has reached, so a dump taken after the refusal shows whatever the call left behind.
+
+Additional ops:
+  ["create", path, what, name, type, extra, fault]      fault = null | [stage, errclass]
+  ["create_mtag", path, name, type, pos, ext]           pos/ext = null | {"ref": path} | {"data": fault}
+  ["append_dim", path, kind, withData, fault]
+  ["dump12"]                                            dump incl. dimension descriptors
+-/
 namespace Driver.C12
+open Driver Driver.Store
 
-/-- C12 is decided on the structural (HDF5 graph) model: same driver for C02 C03 C04 C05 C12 C20 -/
-def main : IO Unit := Driver.Store.main
+def parseErr (s : String) : Option Nix.Err :=
+  [Nix.Err.indexError, .outOfBounds, .valueError, .typeError, .duplicateName, .keyError, .runtimeError,
+   .invalidUnit, .incompatibleDimensions, .invalidFile, .attributeError, .overflowError, .invalidSlice].find?
+    fun e => e.toString == s
+
+def parseFault (j : Json) : Except String (Option Fault) :=
+  if isNull j then .ok none
+  else match (jArr j).toList with
+    | [.str st, .str er] =>
+      let stage? : Option Stage := match st with
+        | "pre" => some .pre | "entity" => some .entity | "data" => some .data | _ => none
+      match stage?, parseErr er with
+      | some s, some e => .ok (some { stage := s, err := e })
+      | _, _ => .error "fault"
+    | _ => .error "fault"
+
+def parseArr (g : Graph) (j : Json) : Except String ArrArg :=
+  if isNull j then .ok .absent
+  else match j.getObjVal? "ref" with
+    | .ok pj => match resolveKey g pj with
+      | some k => .ok (.ref k)
+      | none => .error "unresolvable path"
+    | .error _ => match j.getObjVal? "data" with
+      | .ok fj => (parseFault fj).map ArrArg.data
+      | .error _ => .error "array argument"
+
+def reached (r : Reached) : Graph × Json :=
+  match r.2 with
+  | none => (r.1, ok Json.null)
+  | some e => (r.1, err e)
+
+def tracked12 : List String := trackedAttrs ++ ["dimension_type"]
+
+/-- `Driver.Store.dumpFrom` with the dimension descriptors visible: an invisible group is one without
+links and without any tracked attribute -/
+partial def dump12 (g : Graph) : Json :=
+  let isEmptyCont (k : Nat) : Bool :=
+    match g.node? k with
+    | some n => n.kind == .group && n.links.isEmpty && (n.attrs.filter (fun kv => tracked12.contains kv.1)).isEmpty && k != 0
+    | none => true
+  let rec visit (k : Nat) (seen : List Nat) (out : Array Json) : List Nat × Array Json :=
+    if seen.contains k then (seen, out)
+    else
+      let seen := seen ++ [k]
+      let n := (g.node? k).getD {}
+      let kids := n.links.filter fun l => !isEmptyCont l.2
+      let (seen', out') := kids.foldl (fun (acc : List Nat × Array Json) l => visit l.2 acc.1 acc.2) (seen, out)
+      let num (x : Nat) : Nat := (seen'.idxOf x)
+      let attrs := (n.attrs.filter fun kv => tracked12.contains kv.1)
+      let attrs := attrs.toArray.qsort (fun a b => a.1 < b.1)
+      let node := Json.mkObj [
+        ("n", Json.num (num k)),
+        ("kind", Json.str (match n.kind with | .group => "group" | .dataset => "dataset")),
+        ("attrs", Json.mkObj (attrs.toList.map fun kv => (kv.1, Json.str kv.2))),
+        ("links", Json.arr (kids.map fun l => Json.arr #[Json.str l.1, Json.num (num l.2)]).toArray)]
+      (seen', out'.push node)
+  let (_, out) := visit 0 [] #[]
+  Json.arr (out.qsort fun a b =>
+    match a.getObjVal? "n", b.getObjVal? "n" with
+    | .ok x, .ok y => (jInt? x).getD 0 < (jInt? y).getD 0
+    | _, _ => false)
+
+def step (g : Graph) (j : Json) : Graph × Json :=
+  match (jArr j).toList with
+  | [.str "create_block", nm, .str ty] =>
+    match parseName g nm with
+    | some name => reached (createBlockW g name ty)
+    | none => (g, bad "name")
+  | [.str "create_section", pj, nm, .str ty] =>
+    match parsePath pj, parseName g nm with
+    | some p, some name => reached (createSectionW g p name ty)
+    | _, _ => (g, bad "args")
+  | [.str "create", pj, .str what, nm, .str ty, extra] =>
+    match parsePath pj, parseName g nm, optPathKey g extra with
+    | some p, some name, .ok ex => reached (createInW g p what name ty ex none)
+    | _, _, _ => (g, bad "args")
+  | [.str "create", pj, .str what, nm, .str ty, extra, fj] =>
+    match parsePath pj, parseName g nm, optPathKey g extra, parseFault fj with
+    | some p, some name, .ok ex, .ok f => reached (createInW g p what name ty ex f)
+    | _, _, _, _ => (g, bad "args")
+  | [.str "create_property", pj, nm] =>
+    match parsePath pj, parseName g nm with
+    | some p, some name => reached (createPropertyW g p name)
+    | _, _ => (g, bad "args")
+  | [.str "create_feature", pj, dj, .str lt] =>
+    match parsePath pj, optPathKey g dj with
+    | some p, .ok d => reached (createFeatureW g p d lt)
+    | _, _ => (g, bad "args")
+  | [.str "create_mtag", pj, nm, .str ty, posj, extj] =>
+    match parsePath pj, parseName g nm, parseArr g posj, parseArr g extj with
+    | some p, some name, .ok pos, .ok ext => reached (createMultiTagW g p name ty pos ext)
+    | _, _, _, _ => (g, bad "args")
+  | [.str "append_dim", pj, .str kd, wd, fj] =>
+    match parsePath pj, parseFault fj with
+    | some p, .ok f => reached (appendDimW g p kd (jBool wd) f)
+    | _, _ => (g, bad "args")
+  | [.str "dump12"] => (g, ok (dump12 g))
+  | _ => Driver.Store.step g j
+
+def main : IO Unit := loop ({} : Graph) step
 
 end Driver.C12
